@@ -2,6 +2,7 @@ import XpmVerif.Model.Sched
 import XpmVerif.Generated.SchedFlags
 import XpmVerif.Proofs.SchedFinal
 import XpmVerif.Proofs.SchedLive
+import XpmVerif.Proofs.SchedTerm
 /-! C06 — "Every job reaches a truthful, stable final state and the experiment exits" (safety part).
 
     All theorems are about the scheduler model `Model/Sched.lean` (tied to the Python code by the
@@ -222,7 +223,8 @@ theorem aborted_start_records_wait (fl : Flags) (hr : fl.abortReleases = true) (
     (hpc : (s.jobs j).pc = .lockEnter) (hh : (s.jobs j).held = [])
     (hfail : (s.acquireAll j (s.jobs j).deps.length 0).2 = some e)
     (hnodup : ∀ i t c c', i ≠ e → (depAt (s.jobs j) e).origin = .tok t c → (depAt (s.jobs j) i).origin ≠ .tok t c') :
-    e < (s.jobs j).deps.length ∧ (depAt ((s.resume fl j).jobs j) e).cur = .wait :=
+    e < (s.jobs j).deps.length ∧ (depAt ((s.resume fl j).jobs j) e).cur = .wait ∧
+    ∃ t c, (depAt (s.jobs j) e).origin = .tok t c ∧ s.avail t < c :=
   abort_records_wait fl hr s j e hpc hh hfail hnodup
 
 /-- the hypothesis `hnodup` above is needed, and "every `step`/`deliver` sequence is bounded" is false even with all
@@ -362,6 +364,72 @@ theorem aborted_starts_no_livelock_with_abortReleases :
     (livelockFixedState 3 livelockFixedTail).unfinished = 0 :=
   ⟨rfl, livelock_fixed_facts⟩
 
+/-! ### termination (no livelock) -/
+
+/-- the measure: every enabled `step` (non-empty queue) or `deliver` (pending thread) event of a reachable state in
+    which no job names a token twice strictly decreases `mu : St → Nat` (`Proofs/SchedTerm.lean`: phase potential,
+    abort budgets, ranks, queue lengths).  Needs all four flags. -/
+theorem step_deliver_decreases_measure {fl : Flags} (hg : fl.readyGuarded = true) (hf : fl.resubmitRegisters = true)
+    (ha : fl.abortRechecks = true) (hr : fl.abortReleases = true) {totals : List Nat} {s : St}
+    (h : Reachable fl totals s) (hnd : NoDoubleTok s) (ev : Ev) (hen : Enabled s ev) :
+    mu (s.apply fl ev) < mu s :=
+  mu_decreases fl hg ha hr s (reachable_invT hg ha h hnd) (reachable_invB hg hf h).noreg ev hen
+
+/-- `every_run_finite` (no livelock of aborted starts): from a reachable state in which no job names the same token in
+    two dependencies, every sequence of enabled `step` / `deliver` events (no `submit`, no `wait`; `RunOK`: each event
+    enabled in the state it is applied to, so no no-op events) has length at most `mu s`.  Needs all four flags; false
+    without `abortReleases` (`aborted_starts_livelock_witness`) and without `NoDoubleTok`
+    (`doubled_token_request_spins`). -/
+theorem every_run_finite {fl : Flags} (hg : fl.readyGuarded = true) (hf : fl.resubmitRegisters = true)
+    (ha : fl.abortRechecks = true) (hr : fl.abortReleases = true) {totals : List Nat} {s : St}
+    (h : Reachable fl totals s) (hnd : NoDoubleTok s) (evs : List Ev) (hrun : RunOK fl s evs) :
+    evs.length ≤ mu s := by
+  have := (run_bound hg hf ha hr evs s h hnd hrun).2.2
+  omega
+
+/-- a maximal run exists: from such a state some run of enabled `step` / `deliver` events reaches quiescence. -/
+theorem maximal_run_reaches_quiescence {fl : Flags} (hg : fl.readyGuarded = true) (hf : fl.resubmitRegisters = true)
+    (ha : fl.abortRechecks = true) (hr : fl.abortReleases = true) {totals : List Nat} {s : St}
+    (h : Reachable fl totals s) (hnd : NoDoubleTok s) :
+    ∃ evs, RunOK fl s evs ∧ (evs.foldl (St.apply fl) s).ready = [] ∧ (evs.foldl (St.apply fl) s).threads = [] :=
+  maximal_run_exists hg hf ha hr (mu s) s (Nat.le_refl _) h hnd
+
+/-- `every_maximal_run_ends_all_final`: a run of enabled `step` / `deliver` events that cannot be extended (no event is
+    enabled in its last state) — and every run is finite, `every_run_finite` — ends with every scheduled job returned,
+    `unfinished = 0`, every token full, no lock held and `experiment.wait()` completed.  Needs all four flags,
+    `NoDoubleTok` and `TokFit`. -/
+theorem every_maximal_run_ends_all_final {fl : Flags} (hg : fl.readyGuarded = true) (hf : fl.resubmitRegisters = true)
+    (ha : fl.abortRechecks = true) (hr : fl.abortReleases = true) {totals : List Nat} {s : St}
+    (h : Reachable fl totals s) (hnd : NoDoubleTok s) (hfit : TokFit s) (evs : List Ev) (hrun : RunOK fl s evs)
+    (hmax : ∀ ev, ¬ Enabled (evs.foldl (St.apply fl) s) ev) :
+    let s' := evs.foldl (St.apply fl) s
+    evs.length ≤ mu s ∧ AllFinal s' ∧ s'.unfinished = 0 ∧ (∀ t, s'.avail t = s'.total t) ∧
+    (∀ j, (s'.jobs j).held = []) ∧ (s'.waiter = .none ∨ s'.waiter = .returned ∨ s'.waiter = .raised) := by
+  have hb := run_bound hg hf ha hr evs s h hnd hrun
+  have hq := quiescent_of_not_enabled _ hmax
+  exact ⟨by have := hb.2.2; omega, quiescent_all_final hg hf ha hb.1 hq.1 hq.2 (tokFit_run fl evs s hrun hfit)⟩
+
+/-- C09 in its liveness form: at the end of every maximal run each scheduled job has been launched, unless its success
+    marker existed or one of its dependencies failed — so a waiting job whose request fits is eventually launched. -/
+theorem every_job_eventually_launched {fl : Flags} (hg : fl.readyGuarded = true) (hf : fl.resubmitRegisters = true)
+    (ha : fl.abortRechecks = true) (hr : fl.abortReleases = true) {totals : List Nat} {s : St}
+    (h : Reachable fl totals s) (hnd : NoDoubleTok s) (hfit : TokFit s) (evs : List Ev) (hrun : RunOK fl s evs)
+    (hmax : ∀ ev, ¬ Enabled (evs.foldl (St.apply fl) s) ev) (j : Nat)
+    (hj : j < (evs.foldl (St.apply fl) s).n) (hs : ((evs.foldl (St.apply fl) s).jobs j).pc ≠ .none) :
+    ((evs.foldl (St.apply fl) s).jobs j).launches = 1 ∨ ((evs.foldl (St.apply fl) s).jobs j).marker = true ∨
+    ((evs.foldl (St.apply fl) s).jobs j).failedDep = true := by
+  have hb := run_bound hg hf ha hr evs s h hnd hrun
+  have hall := (every_maximal_run_ends_all_final hg hf ha hr h hnd hfit evs hrun hmax).2.1
+  rcases hall j hj with e | ⟨r, e⟩
+  · exact absurd e hs
+  · rcases (final_is_done_or_error hg hb.1 j r e).1 with hd | he
+    · rcases (final_truthful_done hg hb.1 j r e).1 hd with hm | ⟨hl, _⟩
+      · exact Or.inr (Or.inl hm)
+      · exact Or.inl hl
+    · rcases ((final_truthful_error hg hb.1 j r e).1 he).2 with ⟨hl, _⟩ | hfd
+      · exact Or.inl hl
+      · exact Or.inr (Or.inr hfd)
+
 /-! Hypotheses are satisfiable: a concrete reachable state (flags all true) with a job that returned DONE after one
     launch, one that returned ERROR because its dependency failed (never launched), and a waiter that raised. -/
 section examples
@@ -397,6 +465,8 @@ def exTok : List Ev :=
 
 example : Reachable flOK [3] (runEvs flOK [3] exTok) := reachable_runEvs exTok (by decide)
 example : TokFit (runEvs flOK [3] exTok) := tokFit_runEvs flOK [3] exTok (by decide)
+example : NoDoubleTok (runEvs flOK [3] (exTok.take 3)) := noDoubleTok_runEvs rfl [3] _ (by decide) (by decide)
+example : RunOK flOK (runEvs flOK [3] (exTok.take 3)) (exTok.drop 3) := runOK_of_b flOK _ _ (by decide)
 example : (runEvs flOK [3] exTok).ready = [] ∧ (runEvs flOK [3] exTok).threads = []
     ∧ ((runEvs flOK [3] (exTok.take 10)).jobs 1).pc = .lockExitAbort
     ∧ ((runEvs flOK [3] exTok).jobs 0).pc = .finished .done ∧ ((runEvs flOK [3] exTok).jobs 1).pc = .finished .done
